@@ -116,7 +116,8 @@ class CellWorld:
         self.alloc_variant = {}
         for aname, spec in cfg['allocs'].items():
             alloc = self.cell.partitions[spec['partition']].allocation
-            for part in aname.split('/'):
+            # 'path' lets two tenants of different partitions share a name
+            for part in spec.get('path', aname).split('/'):
                 alloc = alloc.get_sub_alloc(part)
             self.allocs[aname] = alloc
             self.set_alloc(aname, 0)
@@ -259,6 +260,13 @@ class CellWorld:
             server = self.srv[body[1]]
             server.parent.remove_node(server)
             self.buckets[body[2]].add_node(server)
+        elif kind == 'rld':
+            # a 'cell' event: Loader.load_cell rebuilds the top level of the
+            # tree from the (here unchanged) list of top-level buckets
+            tops = list(cell.children_iter())
+            cell.reset_children()
+            for bucket in tops:
+                cell.add_node(bucket)
         elif kind == 'sadd':
             self.add_server(body[1], body[2])
         elif kind == 'alloc':
